@@ -305,6 +305,9 @@ func (t *gtable) renderLet(b *strings.Builder, e *gnode, imp bool) {
 
 // c19ImplicitTimes: the text to put between the operands of `*` so that the comfort-mode scanner
 // inserts the operator itself; "*" when the scanner would not.
+// c19Blank: the white space written where a juxtaposition needs one (a blank; line feed, tab, CR LF in the "impws" rendering)
+var c19Blank = " "
+
 func c19ImplicitTimes(left, right string) string {
 	if left == "" || right == "" {
 		return "*"
@@ -333,17 +336,17 @@ func c19ImplicitTimes(left, right string) string {
 	switch {
 	case rc == '(':
 		if lId {
-			return " " // ident + blank + '('
+			return c19Blank // ident + blank + '('
 		}
 		return ""
 	case isDigit(rc):
 		if lClose {
 			return ""
 		}
-		return " "
+		return c19Blank
 	case isLetter(rc):
 		if lId {
-			return " "
+			return c19Blank
 		}
 		if lNum && rc == 'e' {
 			return "*" // 2e… would be scanned as a number
